@@ -286,7 +286,9 @@ def mpf_outward(f, args, prec, rounding, exact_at_integers=False):
     bound only after allowing for the error of that approximation, so the
     value is computed with 20 extra bits and moved outward by 2^10 units
     of that precision before the final rounding (as in mpi_cos_sin).
-    Zero, infinities and nan are returned as they are. At a small positive
+    Zero and infinities are returned as they are; where the kernel has no
+    value (nan: atan2 at a corner with two infinite coordinates) there is
+    no bound in the requested direction. At a small positive
     integer (exact_at_integers) the gamma kernels round the exactly known
     factorial, or its reciprocal, in the requested direction themselves.
     """
@@ -298,6 +300,10 @@ def mpf_outward(f, args, prec, rounding, exact_at_integers=False):
     wp = prec + 20
     v = f(*(args + (wp,)))
     sign, man, exp, bc = v
+    if v == fnan:
+        if rounding == round_floor:
+            return fninf
+        return finf
     if not man:
         return v
     if bool(sign) == (rounding == round_floor):
